@@ -4,9 +4,16 @@ Pairs (A, B) are derived from one generated Gaussian base program by a labelled 
 whether A and B are the same phase-space map is *computed*, never assumed from the edit.
 
   soundness      A == B or A.equivalence(B) reported True  ==>  the maps are equal (to 1e-4; equivalence itself uses atol 1e-6)
-  algebra        reflexive; symmetric; an identical rebuild is equal and equivalent; swapping two adjacent commands on disjoint
-                 modes keeps programs equivalent
-  robustness     comparing two well-formed programs never raises
+  algebra        reflexive; symmetric; an identical rebuild is equal and equivalent; reordering commands that act on disjoint
+                 modes (one adjacent swap, or any re-linearisation that keeps the order on every wire) keeps programs equivalent
+  options        equivalence(atol=, rtol=) tighter than the default stays sound and follows the documented formula
+                 |a-b| <= atol + rtol*|b|; compare_params=False can only merge, never split
+  statefulness   the verdict follows a program that is extended in place after a comparison
+  robustness     comparing two well-formed programs never raises (ParameterError for not-yet-measured parameters is the documented
+                 rejection of equivalence())
+
+Sub-check `measured_pairs`: programs with post-selected homodyne/heterodyne measurements and gates whose parameter is a measured
+value; the oracle is the conditional output state on a fixed generic probe input state.
 """
 from __future__ import annotations
 
@@ -18,58 +25,272 @@ from hypothesis import strategies as st
 from vf import gen, refsim, spec
 from vf.core import Sub
 
-RULE = ("base program: 1..7 Gaussian commands (incl. .H, two-mode gates on ordered targets, Interferometer with matrix argument) on "
-        "1..4 modes; partner = base after ONE labelled edit (rebuild, append, drop last, flip dagger, change a parameter by 1e-9/1e-3/1, "
-        "move to another mode, swap targets, swap adjacent disjoint commands, larger register, unrelated program); non-trivial = the "
-        "edit was applicable and the oracle determined whether the maps differ")
+RULE = ("base program: 1..7 Gaussian commands (incl. .H, two-mode gates on ordered targets, matrix-valued operations Interferometer / "
+        "GaussianTransform / Gaussian / Ggate, beamsplitters and CX gates at and NEAR the angles equivalence() special-cases) on "
+        "1..4 modes; partner = base after ONE labelled edit (rebuild, append, drop last, flip dagger, change a parameter by "
+        "1e-9/1e-5/3e-4/1e-3/1, change a matrix/vector argument by 1e-9/3e-4/1, move to another mode, swap targets (also of a gate inserted at / next to the special values), swap adjacent "
+        "disjoint commands, swap adjacent OVERLAPPING commands, re-linearise keeping every wire's order, arbitrary permutation, "
+        "larger register, unrelated program), optionally compared with equivalence() keyword options and again after B was extended "
+        "in place; measured_pairs: the same edits on programs with post-selected measurements and measured parameters; non-trivial = "
+        "the edit was applicable and the oracle determined whether the maps differ")
 ASSUMPTIONS = [
     "two programs 'compute the same thing' iff their refsim maps (X, Y, d) agree to 1e-4 (parameter edits of 1e-9 may legitimately be "
     "reported equivalent because equivalence() compares with atol=1e-6)",
     "only the soundness direction is demanded of == and equivalence() (they may report 'different' for equal maps), plus reflexivity, "
-    "symmetry, identical rebuilds and commuting swaps",
+    "symmetry, identical rebuilds and commuting swaps/re-linearisations",
+    "equivalence(atol=a, rtol=r): a single scalar parameter changed by more than 10*(a + r*|b|) must be reported inequivalent "
+    "(documented comparison formula); compare_params=False must report equivalent whenever the default call does, and whenever only "
+    "a scalar parameter of an operation other than BSgate/CXgate was changed (those two choose their wire matching from the value)",
+    "measured_pairs: post-selected measurements make the run deterministic; two programs are the same iff the conditional output "
+    "states on one fixed generic Gaussian probe input agree to 1e-4 (weaker than map equality, so only fewer 'differ' verdicts); a "
+    "measured parameter evaluates to the select value of the latest homodyne measurement of its mode",
 ]
 REQUIRED_LABELS = {"all": ["edit:rebuild", "edit:drop_last", "edit:flip_dagger", "edit:param_1e-3", "edit:move_mode", "edit:swap_targets",
-                           "edit:swap_commuting", "edit:param_0.0003", "edit:param_1e-5", "maps_differ", "maps_equal", "reported_equal", "reported_different"]}
+                           "edit:swap_commuting", "edit:param_0.0003", "edit:param_1e-5", "maps_differ", "maps_equal", "reported_equal", "reported_different",
+                           "edit:swap_overlapping", "edit:reorder_commuting", "edit:permute", "edit:arr_0.0003", "edit:arr_1",
+                           "reorder:non_involution", "special:bs_near_symmetric", "special:cx_small", "kw:atol", "kw:compare_params",
+                           "stateful:append_in_place", "measured:symbolic_param", "measured:conditioned", "edit:swap_special"]}
 
 ALPH = ["Dgate", "Sgate", "Rgate", "BSgate", "S2gate", "MZgate", "CXgate", "CZgate", "Xgate", "Pgate", "Fouriergate", "LossChannel",
-        "Coherent", "Squeezed", "Vacuum", "Thermal", "sMZgate"]
+        "Coherent", "Squeezed", "Vacuum", "Thermal", "sMZgate", "Zgate", "DisplacedSqueezed", "ThermalLossChannel"]
 EDITS = ["rebuild", "append", "drop_last", "flip_dagger", "param_1e-9", "param_1e-3", "param_1", "move_mode", "swap_targets",
-         "swap_commuting", "bigger_register", "unrelated", "param_0.0003", "param_1e-5"]
+         "swap_commuting", "bigger_register", "unrelated", "param_0.0003", "param_1e-5",
+         "swap_overlapping", "reorder_commuting", "permute", "arr_1e-9", "arr_0.0003", "arr_1", "swap_special", "swap_special"]
+ARRAY_OPS = ["Interferometer", "GaussianTransform", "Gaussian", "Ggate"]
+# equivalence() keyword options: only tolerances at or below the default (soundness to 1e-4 still applies) and compare_params=False
+KWARGS = [None, None, None, {"atol": 1e-12}, {"atol": 0.0, "rtol": 0.0}, {"rtol": 1e-12}, {"atol": 1e-9, "rtol": 1e-9}, {"compare_params": False}]
+MEAS = ("MeasureHomodyne", "MeasureHeterodyne")
+EDITS_M = ["rebuild", "drop_last", "flip_dagger", "param_1e-3", "param_1", "move_mode", "swap_commuting", "swap_overlapping",
+           "reorder_commuting", "sym_scale_1e-9", "sym_scale_1e-3", "sym_scale_1", "sym_source"]
+# AUDIT-FINDING select-ignored: "select_changed" (same program, another post-selection value) is not generated: == and equivalence()
+# report such programs equal/equivalent although the conditional states (and the returned samples) differ - out/audit/C18-select-ignored.json
+SELECT_EDITS = ["select_changed"]
 
 
 def selftest():
     refsim.selftest()
+    # the oracle of measured_pairs on a hand-typed case: two-mode squeezed vacuum, homodyne x on mode 0 -> mode 1 is displaced by a
+    # value proportional to the selected outcome; a feed-forward Xgate with the right gain brings it back to the origin
+    r = 0.7
+    base = [["S2gate", [r, 0.0], [0, 1], {}], ["MeasureHomodyne", [0.0], [0], {"select": 0.8}]]
+    mu0, _ = cond_state(2, base, probe=False)
+    want = np.tanh(2 * r) * 0.8
+    if abs(mu0[1] - want) > 1e-9:
+        raise AssertionError("cond_state: conditional mean %r, expected %r" % (mu0[1], want))
+    mu1, _ = cond_state(2, base + [["Xgate", [["mul", -np.tanh(2 * r), ["meas", 0]]], [1], {}]], probe=False)
+    if abs(mu1[1]) > 1e-9:
+        raise AssertionError("cond_state: feed-forward did not cancel the conditional displacement: %r" % (mu1[1],))
+    if wire_order_kept([["Sgate", [0.1, 0.0], [0], {}], ["Rgate", [0.1], [1], {}]], [1, 0]) is not True:
+        raise AssertionError("wire_order_kept: disjoint swap")
+    if wire_order_kept([["Sgate", [0.1, 0.0], [0], {}], ["BSgate", [0.1, 0.0], [1, 0], {}]], [1, 0]) is not False:
+        raise AssertionError("wire_order_kept: overlapping swap")
+
+
+# ----------------------------------------------------------------------------------------------
+# generators
+# ----------------------------------------------------------------------------------------------
+@st.composite
+def array_op(draw, n, names=None):
+    """an operation whose arguments are arrays: unitary, symplectic, covariance + mean vector, symplectic + displacement vector"""
+    name = draw(st.sampled_from(names or ARRAY_OPS))
+    if name == "Interferometer":
+        k = draw(st.integers(2 if n >= 2 else 1, n))
+    else:
+        k = draw(st.integers(1, min(n, 2)))
+    modes = list(draw(st.permutations(list(range(n))))[:k])
+    if name == "Interferometer":
+        params = [spec.enc_matrix(draw(gen.unitary(k))[1])]
+    elif name == "GaussianTransform":
+        params = [spec.enc_matrix(draw(gen.symplectic(k, 0.6))[2])]
+    elif name == "Ggate":
+        params = [spec.enc_matrix(draw(gen.symplectic(k, 0.6))[2]), spec.enc_vec(draw(st.lists(gen.fl(-1.0, 1.0), min_size=2 * k, max_size=2 * k)))]
+    else:
+        params = [spec.enc_matrix(draw(gen.covariance(k))[1]), spec.enc_vec(draw(st.lists(gen.fl(-1.0, 1.0), min_size=2 * k, max_size=2 * k)))]
+    return [name, params, modes, {}]
+
+
+PI = float(np.pi)
+BS_THETA = [PI / 4, -PI / 4, 3 * PI / 4, 5 * PI / 4, 0.3, PI / 4 + 2e-3]
+# phases at, and 1e-3 .. 3e-2 next to, the values for which a beamsplitter is symmetric under a swap of its targets
+BS_PHI = [PI / 2, 0.0, -PI / 2, 3 * PI / 2, 0.3, PI, PI / 2 + 1e-3, PI / 2 - 5e-3, PI / 2 + 3e-2, -PI / 2 + 5e-3]
+BS_NEAR = BS_PHI[6:]
+CX_SMALL = [0.0, 1e-9, 1e-3, -1e-3, 5e-3, 0.05]
 
 
 @st.composite
 def pair_case(draw):
-    n = draw(st.integers(1, 4))
+    edit = draw(st.sampled_from(EDITS))
+    n = draw(st.integers(2 if edit == "swap_special" else 1, 4))
     ops_ = draw(gen.op_list(n, ALPH, "ps", 1, 7))
     if n >= 2 and draw(st.integers(0, 4)) == 0:
         k = draw(st.integers(2, n))
         modes = list(draw(st.permutations(list(range(n))))[:k])
         ops_.insert(draw(st.integers(0, len(ops_))), ["Interferometer", [spec.enc_matrix(draw(gen.unitary(k))[1])], modes, {}])
-    edit = draw(st.sampled_from(EDITS))
-    if n >= 2 and edit in ("swap_targets", "rebuild", "flip_dagger") and draw(st.booleans()):
-        # a beamsplitter at the special angles equivalence() treats separately (50:50, phase pi/2: symmetric under a swap of its targets)
-        th = draw(st.sampled_from([np.pi / 4, -np.pi / 4, 3 * np.pi / 4, 5 * np.pi / 4, 0.3]))
-        ph = draw(st.sampled_from([np.pi / 2, 0.0, -np.pi / 2, 3 * np.pi / 2, 0.3, np.pi]))
+    if edit.startswith("arr_") or draw(st.integers(0, 7)) == 0:
+        ops_.insert(draw(st.integers(0, len(ops_))), draw(array_op(n)))
+    special_idx = None
+    if n >= 2 and (edit == "swap_special" or (edit in ("swap_targets", "rebuild", "flip_dagger") and draw(st.booleans()))):
         pos = draw(st.integers(0, len(ops_)))
-        ops_.insert(pos, ["BSgate", [float(th), float(ph)], list(draw(st.permutations(list(range(n))))[:2]), {}])
+        modes = list(draw(st.permutations(list(range(n))))[:2])
+        if draw(st.integers(0, 2)) > 0:
+            # a beamsplitter at / next to the special angles equivalence() treats separately (phase pi/2: symmetric under a swap of its targets)
+            th = draw(st.sampled_from(BS_THETA))
+            ph = draw(st.sampled_from(BS_NEAR if edit == "swap_special" and draw(st.booleans()) else BS_PHI))
+            ops_.insert(pos, ["BSgate", [float(th), float(ph)], modes, {}])
+        else:
+            # a controlled-X gate that is (nearly) the identity: equivalence() ignores the order of its targets when the parameter is 0
+            ops_.insert(pos, ["CXgate", [float(draw(st.sampled_from(CX_SMALL)))], modes, {}])
         special_idx = [i for i, o in enumerate(ops_) if len(o[2]) == 2].index(pos)
-    else:
-        special_idx = None
     idx = draw(st.integers(0, len(ops_) - 1))
-    if special_idx is not None and edit == "swap_targets" and draw(st.integers(0, 3)) > 0:
-        idx = special_idx  # the edit hits the special beamsplitter
-    extra = draw(gen.op_spec(n, ALPH, "ps"))
-    other = draw(gen.op_list(n, ALPH, "ps", 1, 5))
+    if special_idx is not None and (edit == "swap_special" or (edit == "swap_targets" and draw(st.integers(0, 3)) > 0)):
+        idx = special_idx  # the edit hits the special gate
+    # drawn only where used (generation dominates the cost of a case)
+    then_append = draw(st.integers(0, 5)) == 0
+    extra = draw(gen.op_spec(n, ALPH, "ps")) if edit == "append" or then_append else None
+    other = draw(gen.op_list(n, ALPH, "ps", 1, 5)) if edit == "unrelated" else []
     newmode = draw(st.integers(0, n - 1))
-    return {"n": n, "ops": ops_, "edit": edit, "idx": idx, "extra": extra, "other": other, "newmode": newmode}
+    picks = draw(st.lists(st.integers(0, 7), min_size=8, max_size=8)) if edit in ("reorder_commuting", "permute") else [0]
+    kw = draw(st.sampled_from(KWARGS))
+    return {"n": n, "ops": ops_, "edit": edit, "idx": idx, "extra": extra, "other": other, "newmode": newmode, "picks": picks, "kw": kw,
+            "then_append": then_append}
 
 
-def apply_edit(case):
+MEAS_GATES = {"Xgate": [], "Zgate": [], "Rgate": [], "Pgate": [], "Sgate": [0.4], "Dgate": [0.7], "BSgate": [0.3], "CZgate": []}
+
+
+@st.composite
+def meas_case(draw):
+    """Gaussian commands, then post-selected measurements of 1..2 modes, then commands some of which take a measured value"""
+    edit = draw(st.sampled_from(EDITS_M))
+    two_sources = edit == "sym_source"  # needs two homodyne-measured modes
+    n = draw(st.integers(3 if two_sources else 2, 4))
+    ops_ = draw(gen.op_list(n, ALPH, "ps", 1, 4))
+    measured = list(draw(st.permutations(list(range(n))))[:2 if two_sources else draw(st.integers(1, min(2, n - 1)))])
+    hom = []
+    for m in measured:
+        if hom and not two_sources and draw(st.integers(0, 2)) == 0:
+            ops_.append(["MeasureHeterodyne", [], [m], {"select": {"re": draw(gen.fl(-1.0, 1.0)), "im": draw(gen.fl(-1.0, 1.0))}}])
+        else:
+            ops_.append(["MeasureHomodyne", [draw(gen.angle())], [m], {"select": draw(gen.fl(-1.5, 1.5))}])
+            hom.append(m)
+        if draw(st.integers(0, 3)) == 0:
+            ops_.append(draw(gen.op_spec(n, ALPH, "ps")))
+    for k_post in range(draw(st.integers(1, 3))):
+        if hom and ((k_post == 0 and edit.startswith("sym_")) or draw(st.integers(0, 2)) > 0):
+            name = draw(st.sampled_from(sorted(MEAS_GATES)))
+            k = gen.n_modes_of(name)
+            modes = list(draw(st.permutations(list(range(n))))[:k])
+            src = draw(st.sampled_from(hom))
+            c = draw(st.one_of(st.just(1.0), gen.fl(-1.5, 1.5)))
+            ast = ["meas", src] if c == 1.0 and draw(st.booleans()) else ["mul", c, ["meas", src]]
+            flags = {"H": True} if draw(st.integers(0, 4)) == 0 else {}
+            ops_.append([name, [ast] + list(MEAS_GATES[name]), modes, flags])
+        else:
+            ops_.append(draw(gen.op_spec(n, ALPH, "ps")))
+    idx = draw(st.integers(0, len(ops_) - 1))
+    extra = draw(gen.op_spec(n, ALPH, "ps")) if edit == "append" else None
+    other = draw(gen.op_list(n, ALPH, "ps", 1, 3)) if edit == "unrelated" else []
+    newmode = draw(st.integers(0, n - 1))
+    picks = draw(st.lists(st.integers(0, 7), min_size=8, max_size=8)) if edit in ("reorder_commuting", "permute") else [0]
+    dsel = draw(st.sampled_from([0.4, -0.4, 1e-3]))
+    return {"n": n, "ops": ops_, "edit": edit, "idx": idx, "extra": extra, "other": other, "newmode": newmode, "picks": picks, "dsel": dsel,
+            "measured": True}
+
+
+# ----------------------------------------------------------------------------------------------
+# edits
+# ----------------------------------------------------------------------------------------------
+def sources(ast):
+    """modes whose measured value a symbolic parameter uses"""
+    if not isinstance(ast, list):
+        return set()
+    if ast[0] == "meas":
+        return {int(ast[1])}
+    out = set()
+    for a in ast[1:]:
+        out |= sources(a)
+    return out
+
+
+def touched(o):
+    """wires a command sits on: its targets and the measured modes its parameters depend on"""
+    t = set(o[2])
+    for p in o[1]:
+        t |= sources(p)
+    return t
+
+
+def wire_order_kept(ops_, order):
+    """True iff the re-ordering keeps the relative order of every two commands that share a wire"""
+    pos = {c: k for k, c in enumerate(order)}
+    for i in range(len(ops_)):
+        for j in range(i + 1, len(ops_)):
+            if touched(ops_[i]) & touched(ops_[j]) and pos[i] > pos[j]:
+                return False
+    return True
+
+
+def linear_extension(ops_, picks):
+    """a re-ordering that keeps every wire's order, chosen by the drawn integers `picks`"""
+    remaining = list(range(len(ops_)))
+    order = []
+    k = 0
+    while remaining:
+        ready = [i for i in remaining if not any(touched(ops_[i]) & touched(ops_[j]) for j in remaining if j < i)]
+        c = ready[picks[k % len(picks)] % len(ready)]
+        k += 1
+        order.append(c)
+        remaining.remove(c)
+    return order
+
+
+def shuffled(L, picks):
+    order = list(range(L))
+    for i in range(L - 1, 0, -1):
+        j = picks[i % len(picks)] % (i + 1)
+        order[i], order[j] = order[j], order[i]
+    return order
+
+
+def order_labels(order):
+    L = len(order)
+    if order == list(range(L)):
+        return ["reorder:identity"]
+    twice = [order[order[i]] for i in range(L)]
+    return ["reorder:involution" if twice == list(range(L)) else "reorder:non_involution"]
+
+
+def edit_array(o, delta, idx):
+    """change one array argument of `o` in place by `delta`, keeping it a valid argument of its operation"""
+    cands = [j for j, p in enumerate(o[1]) if isinstance(p, dict)]
+    j = cands[idx % len(cands)]
+    M = spec.dec_param(o[1][j])
+    if "vec" in o[1][j]:
+        M = M.copy()
+        M[idx % len(M)] += delta
+        o[1][j] = spec.enc_vec(M)
+        return "vector"
+    k = len(o[2])
+    if o[0] == "Interferometer":
+        M = M.astype(complex).copy()
+        M[idx % k] *= np.exp(1j * delta)  # one row gets a phase: still unitary, the other rows are unchanged
+        o[1][j] = {"cmat": [[[float(z.real), float(z.imag)] for z in row] for row in M]}
+        return "unitary_row_phase"
+    if o[0] in ("GaussianTransform", "Ggate"):
+        R = np.eye(2 * k)
+        m = idx % k
+        R[m, m] = R[m + k, m + k] = np.cos(delta)
+        R[m, m + k] = -np.sin(delta)
+        R[m + k, m] = np.sin(delta)
+        o[1][j] = spec.enc_matrix(R @ M)  # followed by a rotation of one mode: still symplectic
+        return "symplectic_rotated"
+    o[1][j] = spec.enc_matrix(M * (1.0 + delta))  # covariance scaled up: still a valid covariance
+    return "covariance_scaled"
+
+
+def apply_edit(case, labels=None):
     """returns (n2, ops2) or None if the edit does not apply"""
+    labels = [] if labels is None else labels
     n, ops_, edit, idx = case["n"], case["ops"], case["edit"], case["idx"]
     o2 = copy.deepcopy(ops_)
     if edit == "rebuild":
@@ -88,21 +309,30 @@ def apply_edit(case):
         return n, o2
     if edit.startswith("param_"):
         delta = float(edit.split("_")[1])
-        cands = [i for i, o in enumerate(o2) if o[1] and isinstance(o[1][0], float)]
+        cands = [i for i, o in enumerate(o2) if o[1] and any(isinstance(p, float) for p in o[1])]
         if not cands:
             return None
         o = o2[cands[idx % len(cands)]]
         j = idx % len(o[1])
         if not isinstance(o[1][j], float):
-            j = 0
+            j = [jj for jj, p in enumerate(o[1]) if isinstance(p, float)][0]
         val = o[1][j] + delta
-        if o[0] in ("LossChannel",) and not 0 <= val <= 1:
+        if o[0] in ("LossChannel", "ThermalLossChannel") and j == 0 and not 0 <= val <= 1:
             val = o[1][j] - delta
             if not 0 <= val <= 1:
                 return None
         if o[0] in ("Thermal",) and val < 0:
             return None
         o[1][j] = val
+        labels.append("param_index:%d" % min(j, 2))
+        return n, o2
+    if edit.startswith("arr_"):
+        cands = [i for i, o in enumerate(o2) if any(isinstance(p, dict) for p in o[1])]
+        if not cands:
+            return None
+        o = o2[cands[idx % len(cands)]]
+        labels.append("arr:" + edit_array(o, float(edit.split("_")[1]), idx))
+        labels.append("arr_op:" + o[0])
         return n, o2
     if edit == "move_mode":
         cands = [i for i, o in enumerate(o2) if len(o[2]) == 1]
@@ -114,27 +344,75 @@ def apply_edit(case):
             nm = (nm + 1) % n
         o[2] = [nm]
         return n, o2
-    if edit == "swap_targets":
+    if edit in ("swap_targets", "swap_special"):
         cands = [i for i, o in enumerate(o2) if len(o[2]) == 2]
         if not cands:
             return None
         o = o2[cands[idx % len(cands)]]
         o[2] = [o[2][1], o[2][0]]
+        if o[0] == "BSgate" and abs(abs(o[1][1]) % PI - PI / 2) < 0.05 and abs(o[1][1]) % PI != PI / 2:
+            labels.append("special:bs_near_symmetric")
+        if o[0] == "CXgate" and abs(o[1][0]) <= 0.05:
+            labels.append("special:cx_small")
         return n, o2
     if edit == "swap_commuting":
-        cands = [i for i in range(len(o2) - 1) if not set(o2[i][2]) & set(o2[i + 1][2])]
+        cands = [i for i in range(len(o2) - 1) if not touched(o2[i]) & touched(o2[i + 1])]
         if not cands:
             return None
         i = cands[idx % len(cands)]
         o2[i], o2[i + 1] = o2[i + 1], o2[i]
         return n, o2
+    if edit == "swap_overlapping":
+        cands = [i for i in range(len(o2) - 1) if set(o2[i][2]) & set(o2[i + 1][2])]
+        if not cands:
+            return None
+        i = cands[idx % len(cands)]
+        o2[i], o2[i + 1] = o2[i + 1], o2[i]
+        return n, o2
+    if edit in ("reorder_commuting", "permute"):
+        picks = case.get("picks") or [0]
+        order = linear_extension(o2, picks) if edit == "reorder_commuting" else shuffled(len(o2), picks)
+        labels.extend(order_labels(order))
+        labels.append("order:keeps_wires" if wire_order_kept(o2, order) else "order:breaks_wires")
+        return n, [o2[i] for i in order]
     if edit == "bigger_register":
         return n + 1, o2
     if edit == "unrelated":
         return n, copy.deepcopy(case["other"])
+    if edit.startswith("sym_scale_"):
+        delta = float(edit.split("_")[2])
+        cands = [i for i, o in enumerate(o2) if o[1] and isinstance(o[1][0], list)]
+        if not cands:
+            return None
+        o = o2[cands[idx % len(cands)]]
+        ast = o[1][0]
+        o[1][0] = ["mul", 1.0 + delta, ast] if ast[0] == "meas" else ["mul", ast[1] + delta, ast[2]]
+        return n, o2
+    if edit == "sym_source":
+        cands = [i for i, o in enumerate(o2) if o[1] and isinstance(o[1][0], list)]
+        hom = sorted({o[2][0] for o in o2 if o[0] == "MeasureHomodyne"})
+        if not cands or len(hom) < 2:
+            return None
+        o = o2[cands[idx % len(cands)]]
+        ast = o[1][0]
+        leaf = ast if ast[0] == "meas" else ast[2]
+        leaf[1] = [m for m in hom if m != leaf[1]][case["newmode"] % (len(hom) - 1)]
+        return n, o2
+    if edit == "select_changed":
+        cands = [i for i, o in enumerate(o2) if o[0] in MEAS]
+        if not cands:
+            return None
+        o = o2[cands[idx % len(cands)]]
+        o[3] = dict(o[3])
+        s = o[3]["select"]
+        o[3]["select"] = {"re": s["re"] + case.get("dsel", 0.4), "im": s["im"]} if isinstance(s, dict) else s + case.get("dsel", 0.4)
+        return n, o2
     return None
 
 
+# ----------------------------------------------------------------------------------------------
+# oracle
+# ----------------------------------------------------------------------------------------------
 def maps_equal(n1, ops1, n2, ops2):
     if n1 != n2:
         n = max(n1, n2)
@@ -146,58 +424,284 @@ def maps_equal(n1, ops1, n2, ops2):
     return d, d < 1e-4 * (1 + float(np.max(np.abs(a.X))))
 
 
-def check_pair(ctx, case):
-    res = apply_edit(case)
-    if res is None:
-        ctx.note(case, False, ["edit_not_applicable"])
+def eval_ast(ast, vals):
+    if not isinstance(ast, list):
+        return float(ast)
+    k = ast[0]
+    if k == "meas":
+        return vals[int(ast[1])]  # KeyError: used before a (homodyne) measurement of that mode
+    if k == "mul":
+        return eval_ast(ast[1], vals) * eval_ast(ast[2], vals)
+    if k == "add":
+        return eval_ast(ast[1], vals) + eval_ast(ast[2], vals)
+    if k == "neg":
+        return -eval_ast(ast[1], vals)
+    raise ValueError("unknown symbolic node %r" % (k,))
+
+
+def numeric_ops(ops_):
+    """measured parameters replaced by the select value of the latest homodyne measurement of their mode; None if a value is used
+    before it exists (such a program can be written down but not run)"""
+    vals = {}
+    out = []
+    for o in ops_:
+        try:
+            ps = [eval_ast(p, vals) if isinstance(p, list) else p for p in o[1]]
+        except KeyError:
+            return None
+        out.append([o[0], ps, o[2], o[3] if len(o) > 3 else {}])
+        if o[0] == "MeasureHomodyne":
+            vals[o[2][0]] = float((o[3] or {}).get("select"))
+        elif o[0] == "MeasureHeterodyne":
+            vals.pop(o[2][0], None)
+    return out
+
+
+def cond_state(n, ops_, probe=True):
+    """(mu, V) after the post-selected run, starting from a fixed generic Gaussian probe state (or vacuum)"""
+    ref = refsim.Ref(n, 2.0)
+    if probe:
+        for m in range(n):
+            ref.apply("Squeezed", [0.3 + 0.1 * m, 0.4 + 0.3 * m], [m])
+            ref.apply("Dgate", [0.5 + 0.2 * m, -0.3 + 0.7 * m], [m])
+        for m in range(n - 1):
+            ref.apply("BSgate", [0.6 + 0.1 * m, 0.2 + 0.5 * m], [m, m + 1])
+    num = numeric_ops(ops_)
+    if num is None:
         return None
-    n2, ops2 = res
-    n1, ops1 = case["n"], case["ops"]
-    d, same = maps_equal(n1, ops1, n2, ops2)
-    A = spec.build_program(n1, ops1)
-    B = spec.build_program(n2, ops2)
-    labels = ["edit:" + case["edit"], "maps_equal" if same else "maps_differ"]
+    spec.ref_run(n, num, 2.0, ref)
+    return ref.mu, ref.V
+
+
+def states_equal(n, ops1, ops2):
+    a = cond_state(n, ops1)
+    b = cond_state(n, ops2)
+    if a is None or b is None:
+        return None
+    d = max(float(np.max(np.abs(a[0] - b[0]))), float(np.max(np.abs(a[1] - b[1]))))
+    return d, d < 1e-4 * (1 + float(np.max(np.abs(a[1]))))
+
+
+def build(n, oplist):
+    """spec.build_program plus measured parameters (q[m].par) of the program that is being built"""
+    import strawberryfields as sf
+    from strawberryfields import ops
+
+    prog = sf.Program(n)
+    with prog.context as q:
+        def sym(ast):
+            k = ast[0]
+            if k == "meas":
+                return q[int(ast[1])].par
+            if k == "mul":
+                return (sym(ast[1]) if isinstance(ast[1], list) else ast[1]) * (sym(ast[2]) if isinstance(ast[2], list) else ast[2])
+            if k == "add":
+                return (sym(ast[1]) if isinstance(ast[1], list) else ast[1]) + (sym(ast[2]) if isinstance(ast[2], list) else ast[2])
+            if k == "neg":
+                return -sym(ast[1])
+            raise ValueError("unknown symbolic node %r" % (k,))
+
+        append_ops(q, ops, oplist, sym)
+    return prog
+
+
+def append_ops(q, ops, oplist, sym=None):
+    for s in oplist:
+        nm, params, modes = s[0], s[1], s[2]
+        flags = s[3] if len(s) > 3 else {}
+        op = spec.make_op(ops, nm, params, flags, sym)
+        regs = tuple(q[m] for m in modes)
+        op | (regs if len(regs) != 1 else regs[0])
+
+
+def changed_scalar(ops1, ops2):
+    """(name, old, new) of the single scalar parameter in which two op lists differ, else None"""
+    if len(ops1) != len(ops2):
+        return None
+    hits = []
+    for a, b in zip(ops1, ops2):
+        if a[0] != b[0] or a[2] != b[2] or len(a[1]) != len(b[1]) or (a[3] or {}) != (b[3] or {}):
+            return None
+        for p, r in zip(a[1], b[1]):
+            if p != r:
+                if not (isinstance(p, float) and isinstance(r, float)):
+                    return None
+                hits.append((a[0], p, r))
+    return hits[0] if len(hits) == 1 else None
+
+
+def compare_all(ctx, case, A, B, symbolic, labels):
+    """the four verdicts; None where equivalence() refused programs with measured parameters (documented ParameterError)"""
+    from strawberryfields.parameters import ParameterError
+
     out = {}
     for name, fn in (("eq", lambda x, y: x == y), ("equivalence", lambda x, y: x.equivalence(y))):
         for direction, (x, y) in (("ab", (A, B)), ("ba", (B, A))):
             try:
                 out[(name, direction)] = bool(fn(x, y))
+            except ParameterError as exc:
+                if symbolic and name == "equivalence":
+                    out[(name, direction)] = None
+                    continue
+                ctx.note(case, True, labels)
+                ctx.fail("compare_raises.%s.%s" % (name, type(exc).__name__), "%s(%s) raised %s: %s" % (name, case["edit"], type(exc).__name__, str(exc)[:100]))
+                return None
             except Exception as exc:  # pylint: disable=broad-except
                 ctx.note(case, True, labels)
-                return ctx.fail("compare_raises.%s.%s" % (name, type(exc).__name__), "%s(%s) raised %s: %s" % (name, case["edit"], type(exc).__name__, str(exc)[:100]))
-    rep_eq = out[("eq", "ab")] or out[("equivalence", "ab")]
+                ctx.fail("compare_raises.%s.%s" % (name, type(exc).__name__), "%s(%s) raised %s: %s" % (name, case["edit"], type(exc).__name__, str(exc)[:100]))
+                return None
+    return out
+
+
+def check_pair(ctx, case):
+    labels = []
+    res = apply_edit(case, labels)
+    if res is None:
+        ctx.note(case, False, ["edit_not_applicable"])
+        return None
+    n2, ops2 = res
+    n1, ops1 = case["n"], case["ops"]
+    measured = bool(case.get("measured"))
+    symbolic = any(isinstance(p, list) for o in ops1 + ops2 for p in o[1])
+    if measured:
+        verdict = states_equal(n1, ops1, ops2)
+        if verdict is None:
+            ctx.note(case, False, ["edit_not_applicable", "measured_value_used_before_measurement"])
+            return None
+        d, same = verdict
+        labels += ["measured:conditioned"] + (["measured:symbolic_param"] if symbolic else ["measured:numeric_only"])
+    else:
+        d, same = maps_equal(n1, ops1, n2, ops2)
+    try:
+        A = build(n1, ops1)
+        B = build(n2, ops2)
+    except Exception as exc:  # pylint: disable=broad-except
+        # building is not what this property is about (the decompositions run by the constructors of the matrix-valued
+        # operations belong to C02/C17): such a case is counted, not judged
+        ctx.note(case, False, ["edit_not_applicable", "construction_raised:" + type(exc).__name__])
+        return None
+    labels += ["edit:" + case["edit"], "maps_equal" if same else "maps_differ"]
+    out = compare_all(ctx, case, A, B, symbolic, labels)
+    if out is None:
+        return None
+    if out[("equivalence", "ab")] is None:
+        labels.append("equivalence_refused_unmeasured_parameter")
+    rep_eq = bool(out[("eq", "ab")] or out[("equivalence", "ab")])
+    kw = case.get("kw")
+    then_append = bool(case.get("then_append")) and not measured
+    if kw:
+        labels.append("kw:" + sorted(kw)[0])
+    if then_append:
+        labels.append("stateful:append_in_place")
     ctx.note(case, nontrivial=True, labels=labels + ["reported_equal" if rep_eq else "reported_different"])
-    for name in ("eq", "equivalence"):
-        if out[(name, "ab")] != out[(name, "ba")]:
-            return ctx.fail("%s.not_symmetric" % name, "A %s B = %s but B %s A = %s (edit %s)" % (name, out[(name, "ab")], name, out[(name, "ba")], case["edit"]))
-        if out[(name, "ab")] and not same:
-            return ctx.fail("%s.unsound.%s" % (name, case["edit"]), "programs reported %s although their maps differ by %.3g (edit %s)" % ("equal" if name == "eq" else "equivalent", d, case["edit"]))
-    # == compares parameters exactly (no tolerance is documented for it, unlike equivalence(atol=...)): programs it calls equal apply the same
-    # numbers and their maps agree to rounding
-    if out[("eq", "ab")] and d > 1e-9:
-        return ctx.fail("eq.unsound_beyond_rounding.%s" % case["edit"], "A == B is True although the maps differ by %.3g (edit %s): == has no tolerance" % (d, case["edit"]))
-    if case["edit"] == "rebuild" and not (out[("eq", "ab")] and out[("equivalence", "ab")]):
-        return ctx.fail("identical_rebuild_reported_different", "eq=%s equivalence=%s for an identical rebuild" % (out[("eq", "ab")], out[("equivalence", "ab")]))
-    if case["edit"] == "swap_commuting" and not out[("equivalence", "ab")]:
-        return ctx.fail("equivalence.commuting_swap_reported_different", "swapping two adjacent commands on disjoint modes made the programs inequivalent")
+    r = judge(ctx, case, out, d, same, ops1, ops2, labels)
+    if r is not None:
+        return r
+    if kw and not symbolic:
+        r = check_kwargs(ctx, case, A, B, kw, out, d, same, ops1, ops2)
+        if r is not None:
+            return r
     # reflexivity
     try:
         if not (A == A) or not A.equivalence(A) or not (B == B) or not B.equivalence(B):
             return ctx.fail("not_reflexive", "a program is not equal/equivalent to itself")
     except Exception as exc:  # pylint: disable=broad-except
         return ctx.fail("compare_raises.reflexive.%s" % type(exc).__name__, str(exc)[:100])
+    if then_append:
+        return check_in_place(ctx, case, A, B, n1, ops1, n2, ops2)
+    return None
+
+
+def judge(ctx, case, out, d, same, ops1, ops2, labels, tag=""):
+    edit = case["edit"] + tag
+    for name in ("eq", "equivalence"):
+        if out[(name, "ab")] != out[(name, "ba")]:
+            return ctx.fail("%s.not_symmetric" % name, "A %s B = %s but B %s A = %s (edit %s)" % (name, out[(name, "ab")], name, out[(name, "ba")], edit))
+        if out[(name, "ab")] and not same:
+            return ctx.fail("%s.unsound.%s" % (name, edit), "programs reported %s although their maps differ by %.3g (edit %s)" % ("equal" if name == "eq" else "equivalent", d, edit))
+    # == compares parameters exactly (no tolerance is documented for it, unlike equivalence(atol=...)): programs it calls equal apply the same
+    # numbers and their maps agree to rounding
+    if out[("eq", "ab")] and d > 1e-9:
+        return ctx.fail("eq.unsound_beyond_rounding.%s" % edit, "A == B is True although the maps differ by %.3g (edit %s): == has no tolerance" % (d, edit))
+    if tag:
+        return None
+    if case["edit"] == "rebuild" and not (out[("eq", "ab")] and out[("equivalence", "ab")] in (True, None)):
+        return ctx.fail("identical_rebuild_reported_different", "eq=%s equivalence=%s for an identical rebuild" % (out[("eq", "ab")], out[("equivalence", "ab")]))
+    if case["edit"] == "swap_commuting" and out[("equivalence", "ab")] is False:
+        return ctx.fail("equivalence.commuting_swap_reported_different", "swapping two adjacent commands on disjoint modes made the programs inequivalent")
+    if case["edit"] in ("reorder_commuting", "permute") and "order:keeps_wires" in labels and out[("equivalence", "ab")] is False:
+        return ctx.fail("equivalence.commuting_reorder_reported_different",
+                        "a re-ordering that keeps the order of the commands on every wire made the programs inequivalent (edit %s)" % case["edit"])
+    return None
+
+
+def check_kwargs(ctx, case, A, B, kw, out, d, same, ops1, ops2):
+    try:
+        r_ab = bool(A.equivalence(B, **kw))
+        r_ba = bool(B.equivalence(A, **kw))
+    except Exception as exc:  # pylint: disable=broad-except
+        return ctx.fail("compare_raises.equivalence_kw.%s" % type(exc).__name__, "equivalence(**%r) raised %s: %s" % (kw, type(exc).__name__, str(exc)[:100]))
+    ch = changed_scalar(ops1, ops2)
+    if "compare_params" in kw:
+        if out[("equivalence", "ab")] and not r_ab:
+            return ctx.fail("equivalence.compare_params_false_is_stricter", "equivalent with parameters compared, inequivalent with compare_params=False (edit %s)" % case["edit"])
+        if ch is not None and ch[0] not in ("BSgate", "CXgate") and not r_ab:
+            return ctx.fail("equivalence.compare_params_false_compares_parameters",
+                            "only a parameter of %s changed (%r -> %r) but equivalence(compare_params=False) is False" % ch)
+        return None
+    if r_ab and not same:
+        return ctx.fail("equivalence.unsound_with_kw.%s" % case["edit"], "equivalence(**%r) is True although the maps differ by %.3g" % (kw, d))
+    if not kw.get("rtol") and r_ab != r_ba:
+        return ctx.fail("equivalence.not_symmetric_with_kw", "equivalence(**%r): A~B = %s, B~A = %s" % (kw, r_ab, r_ba))
+    if case["edit"] == "rebuild" and not r_ab:
+        return ctx.fail("identical_rebuild_reported_different_with_kw", "equivalence(**%r) is False for an identical rebuild" % (kw,))
+    if ch is not None:
+        tol = kw.get("atol", 1e-6) + kw.get("rtol", 0.0) * max(abs(ch[1]), abs(ch[2]))
+        if abs(ch[1] - ch[2]) > 10 * tol and r_ab:
+            return ctx.fail("equivalence.tolerance_kw_ignored",
+                            "parameter of %s changed by %.3g > 10*(atol + rtol*|b|) = %.3g, yet equivalence(**%r) is True" % (ch[0], abs(ch[1] - ch[2]), 10 * tol, kw))
+    return None
+
+
+def check_in_place(ctx, case, A, B, n1, ops1, n2, ops2):
+    """B is extended in place after it has been compared: the verdicts must follow the program, not the first comparison"""
+    from strawberryfields import ops
+
+    ops3 = ops2 + [case["extra"]]
+    with B.context as q:
+        append_ops(q, ops, [case["extra"]])
+    d3, same3 = maps_equal(n1, ops1, n2, ops3)
+    out = compare_all(ctx, case, A, B, False, [])
+    if out is None:
+        return None
+    r = judge(ctx, case, out, d3, same3, ops1, ops3, [], tag="+append_in_place")
+    if r is not None:
+        return r
+    C = spec.build_program(n2, ops3)
+    out = compare_all(ctx, case, B, C, False, [])
+    if out is None:
+        return None
+    if not (out[("eq", "ab")] and out[("equivalence", "ab")]):
+        return ctx.fail("identical_rebuild_reported_different.after_append_in_place",
+                        "a program extended in place vs the same commands built at once: eq=%s equivalence=%s" % (out[("eq", "ab")], out[("equivalence", "ab")]))
     return None
 
 
 SUBS = [
-    Sub("edit_pairs", check=check_pair, strategy=lambda ctx: pair_case(), examples={"quick": 1500, "thorough": 15000},
-        shards={"quick": 2, "thorough": 16}, rule="labelled single-edit pairs of Gaussian programs; soundness, symmetry, reflexivity, rebuild, commuting swap"),
+    Sub("edit_pairs", check=check_pair, strategy=lambda ctx: pair_case(), examples={"quick": 820, "thorough": 15000},
+        shards={"quick": 4, "thorough": 16}, rule="labelled single-edit pairs of Gaussian programs; soundness, symmetry, reflexivity, rebuild, commuting swap / "
+        "re-linearisation, equivalence() keyword options, comparison after an in-place extension"),
+    Sub("measured_pairs", check=check_pair, strategy=lambda ctx: meas_case(), examples={"quick": 450, "thorough": 7000},
+        shards={"quick": 2, "thorough": 8}, rule="labelled single-edit pairs of programs with post-selected homodyne/heterodyne measurements and "
+        "measured parameters; the oracle is the conditional output state on a generic probe input"),
 ]
 
 MANIFEST = {
     "technique": "Hypothesis metamorphic testing over labelled program edits with a refsim oracle deciding whether the maps really differ",
     "text": ("For every generated pair the oracle computes whether the two programs are the same phase-space map; == and equivalence() must "
-             "never report equal/equivalent for pairs whose maps differ (prefixes, daggered variants, moved or swapped targets, parameter "
-             "changes above the comparison tolerance), must be reflexive and symmetric, accept identical rebuilds and commuting swaps, and "
-             "never raise on well-formed programs."),
+             "never report equal/equivalent for pairs whose maps differ (prefixes, daggered variants, moved or swapped targets, re-ordered "
+             "overlapping commands, parameter and matrix-argument changes above the comparison tolerance, measured parameters with another "
+             "gain or source), must be reflexive and symmetric, accept identical rebuilds and every re-ordering that keeps the order on "
+             "each wire, honour the documented tolerance options, follow programs that are extended in place, and never raise on "
+             "well-formed programs."),
 }
